@@ -37,6 +37,12 @@ type mon struct {
 	snapRec, snapPend map[int]int64
 	amount            map[int]int64  // what the current request of worker w adds when admitted
 	val               map[int]string // argument value of the current request of worker w ("" for C02 / C04)
+	// C04 / C06: entries whose Exit call is in progress (the exit path is interleaved at atomic-access granularity,
+	// so until Exit returns the unit may or may not have been released): per value, and the figure when the
+	// rule check of worker w ran
+	exiting  map[string]int64
+	snapExit map[int]int64
+	inExit   map[int]bool
 }
 
 var M *mon
@@ -58,6 +64,7 @@ func (preSlot) Check(ctx *base.EntryContext) *base.TokenResult {
 	// the rule checks of this request run now, atomically w.r.t. the other workers
 	M.snapRec[w] = M.recorded[M.val[w]]
 	M.snapPend[w] = M.pending[M.val[w]]
+	M.snapExit[w] = M.exiting[M.val[w]]
 	return nil
 }
 
@@ -86,8 +93,8 @@ func (afterStat) OnEntryPassed(ctx *base.EntryContext) {
 	v := M.val[w]
 	M.pending[v] -= M.amount[w]
 	M.recorded[v] += M.amount[w]
-	if M.recorded[v] > M.peak {
-		M.peak = M.recorded[v]
+	if M.recorded[v]-M.exiting[v] > M.peak {
+		M.peak = M.recorded[v] - M.exiting[v]
 	}
 	delete(M.inside, w)
 }
@@ -119,6 +126,7 @@ type caseDesc struct {
 }
 
 var run *vk.Run
+var probeNote string
 var chain *base.SlotChain
 var caseNo int
 
@@ -167,6 +175,7 @@ type outcome struct {
 	w, i           int
 	admitted       bool
 	rec, pend, amt int64
+	exiting        int64
 	blockType      base.BlockType
 	bothOrNeither  bool
 }
@@ -174,6 +183,7 @@ type outcome struct {
 // execute runs the case under the chooser and returns the outcomes in completion order.
 func execute(c *caseDesc, ch coop.Chooser) (*coop.Result, []outcome, string) {
 	caseNo++
+	probeNote = ""
 	res := fmt.Sprintf("cc-%s-%d", prop, caseNo)
 	if prop == "C02" {
 		flow.LoadRules([]*flow.Rule{{ID: "r", Resource: res, TokenCalculateStrategy: flow.Direct, ControlBehavior: flow.Reject, Threshold: c.T}})
@@ -186,7 +196,18 @@ func execute(c *caseDesc, ch coop.Chooser) (*coop.Result, []outcome, string) {
 		defer isolation.ClearRules()
 	}
 	M = &mon{inside: map[int]bool{}, snapRec: map[int]int64{}, snapPend: map[int]int64{}, amount: map[int]int64{}, val: map[int]string{},
-		recorded: map[string]int64{}, pending: map[string]int64{}}
+		recorded: map[string]int64{}, pending: map[string]int64{}, exiting: map[string]int64{}, snapExit: map[int]int64{}, inExit: map[int]bool{}}
+	// rule checks and the statistic phase of Entry stay atomic w.r.t. the other workers (the oracle's snapshot is
+	// exact there); the exit path is interleaved at every shimmed atomic access
+	coop.AtomicFilter = func() bool { return M.inExit[coop.Me()] }
+	defer func() { coop.AtomicFilter = nil }()
+	exit := func(w int, e *base.SentinelEntry, v string) {
+		M.exiting[v]++
+		M.inExit[w] = true
+		e.Exit()
+		M.inExit[w] = false
+		M.exiting[v]--
+	}
 	entryOpts := func(r req) []sentinel.EntryOption {
 		o := []sentinel.EntryOption{sentinel.WithSlotChain(chain), sentinel.WithBatchCount(r.Batch)}
 		if prop == "C06" {
@@ -227,7 +248,7 @@ func execute(c *caseDesc, ch coop.Chooser) (*coop.Result, []outcome, string) {
 				M.amount[w] = amt
 				M.val[w] = r.Val
 				e, b := sentinel.Entry(res, entryOpts(r)...)
-				o := outcome{w: w, i: i, admitted: b == nil, rec: M.snapRec[w], pend: M.snapPend[w], amt: int64(r.Batch), bothOrNeither: (e == nil) == (b == nil)}
+				o := outcome{w: w, i: i, admitted: b == nil, rec: M.snapRec[w], pend: M.snapPend[w], exiting: M.snapExit[w], amt: int64(r.Batch), bothOrNeither: (e == nil) == (b == nil)}
 				if b != nil {
 					o.blockType = b.BlockType()
 				}
@@ -236,12 +257,16 @@ func execute(c *caseDesc, ch coop.Chooser) (*coop.Result, []outcome, string) {
 					coop.Yield("pre-release")
 					h := held[len(held)-1]
 					held = held[:len(held)-1]
-					h.Exit()
+					exit(w, h, preVal)
 				}
 				if e != nil {
 					if prop == "C02" || r.Exit {
 						coop.Yield("pre-exit")
-						e.Exit()
+						if prop == "C02" {
+							e.Exit()
+						} else {
+							exit(w, e, r.Val)
+						}
 					} else {
 						toExit[w] = append(toExit[w], e)
 					}
@@ -257,6 +282,31 @@ func execute(c *caseDesc, ch coop.Chooser) (*coop.Result, []outcome, string) {
 	}
 	for _, e := range held {
 		e.Exit()
+	}
+	coop.AtomicFilter = nil
+	// quiescence: every unit must have been released exactly once - a sequential probe admits exactly the threshold
+	if prop != "C02" && !r.Stuck && len(r.NonTerminated) == 0 && len(r.Panics) == 0 {
+		vals := []string{""}
+		if prop == "C06" {
+			vals = []string{"a", "b"}
+		}
+		for _, v := range vals {
+			var hs []*base.SentinelEntry
+			n := 0
+			for ; n < int(c.T)+3; n++ {
+				e, b := sentinel.Entry(res, entryOpts(req{Batch: 1, Val: v})...)
+				if b != nil {
+					break
+				}
+				hs = append(hs, e)
+			}
+			for _, e := range hs {
+				e.Exit()
+			}
+			if n != int(c.T) {
+				probeNote = fmt.Sprintf("after every entry was exited the resource admitted %d entries for value %q, threshold %v", n, v, c.T)
+			}
+		}
 	}
 	return r, outs, ""
 }
@@ -275,6 +325,11 @@ func check(c *caseDesc, r *coop.Result, outs []outcome) {
 		run.Violation(prop+"/coop:panic", fmt.Sprintf("worker %d panicked: %s", w, p), c)
 		return
 	}
+	if probeNote != "" {
+		c.Note = probeNote
+		run.Violation(prop+"/coop:conservation:capacity-after-quiescence", probeNote, c)
+		return
+	}
 	maxAmt := int64(0)
 	admittedTotal := c.Pre
 	for _, o := range outs {
@@ -285,8 +340,8 @@ func check(c *caseDesc, r *coop.Result, outs []outcome) {
 			run.Violation(prop+"/coop:outcome-both-or-neither", "Entry returned both or neither", c)
 			return
 		}
-		lower := float64(o.rec)          // what the statistic had recorded when the check ran
-		upper := float64(o.rec + o.pend) // plus requests admitted but not yet recorded
+		lower := float64(o.rec - o.exiting) // what the statistic had recorded when the check ran (less the entries whose Exit was in progress)
+		upper := float64(o.rec + o.pend)    // plus requests admitted but not yet recorded
 		need := float64(o.amt)
 		if prop == "C02" && o.admitted {
 			admittedTotal += o.amt
@@ -297,7 +352,7 @@ func check(c *caseDesc, r *coop.Result, outs []outcome) {
 			run.Violation(prop+"/coop:over-admission-vs-recorded", c.Note, c)
 			return
 		case !o.admitted && upper+need <= c.T:
-			c.Note = fmt.Sprintf("worker %d request %d rejected with recorded %v + in-path %v + %v <= %v", o.w, o.i, lower, upper-lower, need, c.T)
+			c.Note = fmt.Sprintf("worker %d request %d rejected with recorded %v + in-path %v + %v <= %v", o.w, o.i, o.rec, o.pend, need, c.T)
 			run.Violation(prop+"/coop:spurious-rejection", c.Note, c)
 			return
 		}
@@ -350,7 +405,7 @@ func main() {
 	}
 	run = vk.Start(prop, "coop")
 	defer run.Finish()
-	run.Rule("schedule = (threshold, warm-up, 2-4 workers x 1-2 requests, choice sequence at the yield points pre-check / between-check-and-statistic / pre-exit) under random walk, PCT(d<=3) and bounded DFS (<=3 pre-emptions, 2-worker cases); per request the decision must be consistent with [recorded, recorded+in-path] at the instant its rule check ran, and the total excess bounded by (k_inside-1)*max batch; distinct = distinct (case, interleaving).")
+	run.Rule("schedule = (threshold, warm-up, 2-4 workers x 1-2 requests, choice sequence at the yield points pre-check / between-check-and-statistic / pre-exit and, for C04 / C06, at every shimmed atomic access of the exit path) under random walk, PCT(d<=3) and bounded DFS (<=3 pre-emptions, 2-worker cases); per request the decision must be consistent with [recorded, recorded+in-path] at the instant its rule check ran, and the total excess bounded by (k_inside-1)*max batch; after the run a sequential probe must admit exactly the threshold (every unit released exactly once); distinct = distinct (case, interleaving).")
 	run.Assume("frozen virtual clock inside one statistic window", "interleaving granularity = the two chain yield points (rule checks and the statistic phase of one request are atomic w.r.t. other workers)")
 	vclock.New(1700000000123)
 	chain = sentinel.BuildDefaultSlotChain()
